@@ -24,7 +24,7 @@ def gen(rng):
             ops.append(("recv", f"{rng.choice([255, 255, 3])};{rng.choice([255, 255, 0, 7])};3;{rng.choice([0, 1])};3;{rng.choice(['', 'x'])}", faults))
         elif x < 0.8:
             n = rng.choice([5, 40, 252, 253, 254, 255, 2])
-            ops.append(("recv", f"{n};255;0;0;17;2.0", ()))
+            ops.append(("recv", f"{n};255;0;0;{rng.choice([17, 17, 18])};{rng.choice(['2.0', '2.0', '', 'custom', '2.x', '1.4'])}", ()))
         elif x < 0.86:
             ops.append(("reconnect",))
         elif x < 0.9:
